@@ -49,9 +49,13 @@ def build(variant="asan"):
     exe = os.path.join(out, "vh")
     if os.path.exists(exe):
         return exe
-    # drop stale builds of this variant
+    # drop stale builds of this variant - but never one that another process may be building or running right now
+    # (checks against a modified copy of the repository run side by side with checks against /repo): only directories untouched for hours
     for d in glob.glob(os.path.join(BUILD, variant + "-*")):
-        shutil.rmtree(d, ignore_errors=True)
+        try:
+            if time.time() - os.path.getmtime(d) > 6 * 3600: shutil.rmtree(d, ignore_errors=True)
+        except OSError:
+            pass
     tmp = out + ".tmp%d" % os.getpid()
     shutil.rmtree(tmp, ignore_errors=True); os.makedirs(tmp)
     v = VARIANTS[variant]
